@@ -2,7 +2,7 @@
     (That every taxable event then receives fractions summing to its full amount, and income
     exactly one lot-less fraction, is C02 / SpecProps.) *)
 From RP2V Require Import Base.Prelude Base.Time Base.Dec Model.Types Model.Generated Model.Txn
-  Model.Matcher Model.Pipeline Proofs.C03Proofs.
+  Model.Matcher Model.Pipeline Proofs.C03Proofs Proofs.TransferFee.
 From Coq Require Import Permutation.
 Open Scope Z_scope.
 
@@ -11,15 +11,43 @@ Theorem C03_earn_types : forall t,
   t = AIRDROP \/ t = HARDFORK \/ t = INCOME \/ t = INTEREST \/ t = MINING \/ t = STAKING \/ t = WAGES.
 Proof. exact earn_types_exact. Qed.
 
-(** the taxable events are exactly: earn-typed acquisitions, all out-transactions, transfers
-    whose fee has a positive fiat value (13-decimal comparison: see finding F8 for dust) *)
+(** the transfer-fee rule of the source as it is now (IntraTransaction.is_taxable, re-translated on every run): a transfer is
+    taxable iff its crypto fee is > 0 on the 1e-11 grid.  Proved by reflexivity on the generated definition: a tree with
+    another rule (e.g. the one before the repair of finding F8, `fiat_fee > ZERO` at 13 decimals) stops compiling here *)
+Theorem C03_transfer_rule_from_source : forall a, intra_is_taxable a = (x_crypto_fee a >? 0).
+Proof. exact code_intra_taxable_iff_fee. Qed.
+
+(** the taxable events are exactly: earn-typed acquisitions, all out-transactions, transfers with a positive fee *)
 Theorem C03_taxable_exactly : forall (t : txs) evs (e : txn),
   taxable_events t = Ok evs ->
   (In e evs <->
    (exists a, e = TIn a /\ In a (t_ins t) /\ is_earn_type (i_type a) = true) \/
    (exists a, e = TOut a /\ In a (t_outs t)) \/
-   (exists a, e = TIntra a /\ In a (t_intras t) /\ dgtb (x_fiat_fee a) dzero = true)).
-Proof. exact taxable_events_iff. Qed.
+   (exists a, e = TIntra a /\ In a (t_intras t) /\ 0 < x_crypto_fee a)).
+Proof. exact taxable_events_exact. Qed.
+
+(** ... and for histories that went through the constructors (which reject sent < received, so a fee is never negative):
+    "every transfer between own accounts whose fee is non-zero" *)
+Theorem C03_taxable_exactly_from_rows : forall (h : hist) (t : txs) evs (e : txn),
+  build h = Ok t -> taxable_events t = Ok evs ->
+  (In e evs <->
+   (exists a, e = TIn a /\ In a (t_ins t) /\ is_earn_type (i_type a) = true) \/
+   (exists a, e = TOut a /\ In a (t_outs t)) \/
+   (exists a, e = TIntra a /\ In a (t_intras t) /\ x_crypto_fee a <> 0)).
+Proof. exact taxable_events_exact_built. Qed.
+
+Theorem C03_feeless_transfer_never_taxed : forall (t : txs) evs a,
+  taxable_events t = Ok evs -> x_crypto_fee a = 0 -> ~ In (TIntra a) evs.
+Proof. exact feeless_transfer_not_taxed. Qed.
+
+(** finding F8 (repaired): under the previous rule ([intra_is_taxable_fiat]: fiat value of the fee > 0 at 13 decimals) a
+    transfer with a fee of 1e-11 coins at price 1e-8 (worth 1e-19) was not a taxable event.  Stated on the pipeline under that
+    explicit rule, so it compiles on every tree; [dust_fee_taxed_now] (Proofs/TransferFee.v) is the same history under the
+    rule of the source: one taxable event, amount 1e-11 *)
+Theorem C03_refuted_dust_fee_old_rule : exists h t evs a,
+  build h = Ok t /\ taxable_events_by intra_is_taxable_fiat t = Ok evs /\
+  In a (t_intras t) /\ x_crypto_fee a = 1 /\ ~ In (TIntra a) evs.
+Proof. exact c03_refuted_dust_fee_old_rule. Qed.
 
 Theorem C03_none_dropped_or_duplicated : forall (t : txs) evs,
   taxable_events t = Ok evs -> Permutation evs (taxable_unsorted t) /\ NoDup (map t_row evs).
@@ -33,7 +61,11 @@ Theorem C03_only_fee_of_transfer : forall a, intra_crypto_balance_change a = x_c
 Proof. intro a; reflexivity. Qed.
 
 Print Assumptions C03_earn_types.
+Print Assumptions C03_transfer_rule_from_source.
 Print Assumptions C03_taxable_exactly.
+Print Assumptions C03_taxable_exactly_from_rows.
+Print Assumptions C03_feeless_transfer_never_taxed.
+Print Assumptions C03_refuted_dust_fee_old_rule.
 Print Assumptions C03_none_dropped_or_duplicated.
 Print Assumptions C03_amount_and_kind.
 Print Assumptions C03_only_fee_of_transfer.
